@@ -17,6 +17,7 @@ func c07Decl(opts flags.Options) *decl.Decl {
 	top := &decl.Cmd{Name: "app", SubOptional: true, Opts: []*decl.Opt{
 		{Field: "Verbose", Short: "v", Long: "verbose", Type: decl.TBools},
 		{Field: "Opt", Short: "é", Long: "Opt", Type: decl.TInt},
+		{Field: "Lonely", Long: "lonely", Type: decl.TString}, // long-only: it has no short name at all
 	}}
 	top.Groups = []*decl.Group{{Field: "NS", Name: "Namespaced", Namespace: "ns", Opts: []*decl.Opt{{Field: "O", Short: "o", Long: "opt", Type: decl.TString}}}}
 	deep := &decl.Cmd{Field: "Deep", Name: "deep", Opts: []*decl.Opt{{Field: "Depth", Short: "d", Long: "depth", Type: decl.TInt}}}
@@ -61,11 +62,8 @@ func init() {
 		if c.Thorough {
 			maxDepth = 5
 		}
-		if warm != 0 {
-			maxDepth-- // the reused-parser variants go one unit less deep
-		}
-		if pol.handler != ref.NoHandler && pol.handler != ref.HandlerKeep {
-			maxDepth-- // so do the handler variants that rewrite the arguments
+		if warm != 0 || api || (pol.handler != ref.NoHandler && pol.handler != ref.HandlerKeep) {
+			maxDepth-- // the reused-parser variants, the API build and the handler variants that rewrite the arguments go one unit less deep
 		}
 		n := c.Choose(maxDepth + 1)
 		var argv []string
@@ -178,7 +176,7 @@ func init() {
 	explore.Register(&explore.Check{
 		ID:         "C07",
 		Level:      "model_checking",
-		ShardDepth: 3,
+		ShardDepth: 5,
 		Body:       body,
 		Rule: "declaration with case-sensitive, namespaced and non-ASCII names and options that exist only in sibling / deeper commands; 7 policies (fail, fail+PassDoubleDash, IgnoreUnknown, handler returning the arguments unchanged / dropping the next / " +
 			"inserting a token / returning an error) x {tags, API} x {fresh parser, parser that already parsed a vector selecting add/deep, selecting rm} x every sequence of <= 4 (quick) / <= 5 (thorough) units over 12 valid tokens and 22 near misses (case flips, names containing % or a NUL character, an unknown -<digits> token while an int positional is pending, prefixes, one character dropped/added/changed, " +
@@ -186,7 +184,7 @@ func init() {
 		Assumptions:  []string{"the name passed to the handler for a multi-character cluster is not asserted", "values of flags that precede an unknown character inside one cluster are not asserted"},
 		RequiredHits: []string{"unknown-rejected", "handler-called", "continued-after-unknown", "after-earlier-parse"},
 		Bound:        [2]string{"unit sequences <= 4", "unit sequences <= 5"},
-		BudgetS:      [2]int{100, 1500},
+		BudgetS:      [2]int{170, 1500},
 	})
 }
 
